@@ -92,6 +92,20 @@ def discharge_all(run, obs, timeout_ms=20000, procs=None, on_sat=None):
             out_ = pool.map(_solve, jobs, chunksize=8 if len(jobs) > 2000 else 1)
     for k, r in zip(todo, out_):
         res[k] = r
+    # second chance for obligations the solvers left open within the budget (a busy machine must not flip a verdict): the few that
+    # are left run again with three times the budget and at most four at a time; `unknown` stays undecided, never a violation
+    again = [k for k in todo if res[k][0] == "unknown" and not obs[k].expect_sat]
+    if again and not os.environ.get("VERIF_NO_RETRY"):
+        jobs2 = [(obs[k].smt2, timeout_ms * 3, True, obs[k].hints, obs[k].expect_sat) for k in again]
+        if len(jobs2) <= 1:
+            out2 = [_solve(j) for j in jobs2]
+        else:
+            with mp.get_context("fork").Pool(min(4, len(jobs2))) as pool:
+                out2 = pool.map(_solve, jobs2, chunksize=1)
+        for k, r in zip(again, out2):
+            if r[0] != "unknown":
+                res[k] = (r[0], r[1], res[k][2] + r[2], r[3] + " (second attempt, 3x budget)")
+        run.extra["second_attempts"] = run.extra.get("second_attempts", 0) + len(again)
     out = []
     for o, (status, detail, dt, backend) in zip(obs, res):
         name = f"{o.fn}::{o.clause}::{o.label}"
